@@ -1,7 +1,7 @@
 /-
   Line-protocol driver: dispatch over op groups and per-line verdict.  IMPORT-FREE.
 -/
-import OHVerif.Model.DriverLax
+import OHVerif.Model.DriverOptic
 
 namespace OH
 namespace Drv
@@ -15,6 +15,7 @@ def dispatch (op : String) (args : List Sx) (impl : Sx) : Option Outcome :=
   if op.startsWith "prim." then prim B op args impl
   else if op.startsWith "ff." then ff B op args impl
   else if op.startsWith "ic." then ic B op args impl
+  else if op.startsWith "lax.optic." || op.startsWith "optic." || op.startsWith "var." then opticG B op args impl
   else if op == "lax.edit" then laxEdit B op args impl
   else if op.startsWith "lax.functor." || op.startsWith "functor." then functorG B op args impl
   else if op.startsWith "lax." then laxCat B op args impl
